@@ -278,11 +278,13 @@ func finish(c *Ctx, prop, tier string, seed int, rules []*Rule, selftest map[str
 	evDir := filepath.Join(verifDir(), "evidence")
 	_ = os.MkdirAll(evDir, 0o755)
 	violPath := filepath.Join(evDir, prop+".violations.json")
-	if len(unlisted) > 0 {
-		b, _ := json.MarshalIndent(unlisted, "", " ")
-		_ = os.WriteFile(violPath, b, 0o644)
-	} else {
-		_ = os.Remove(violPath)
+	if os.Getenv("FDCHECK_NO_EVIDENCE") == "" {
+		if len(unlisted) > 0 {
+			b, _ := json.MarshalIndent(unlisted, "", " ")
+			_ = os.WriteFile(violPath, b, 0o644)
+		} else {
+			_ = os.Remove(violPath)
+		}
 	}
 	if samples == nil {
 		samples = []string{}
